@@ -122,7 +122,7 @@ def rel_c07(fp, fields):
 
 
 def rel_c08(fp, fields):
-    return any(f in ("obs.hi", "obs.fup", "obs.fst", "obs.ret", "obs.certs", "panic")
+    return any(f in ("obs.hi", "obs.fup", "obs.fst", "obs.ret", "obs.certs", "obs.waiting", "panic")
                or (f == "ret" and (fp.startswith("cert:") or fp.startswith("vote:")))
                for f in fields)
 
